@@ -325,6 +325,7 @@ class Runner:
             self.impl.fix_f1 = False
         self.cases = []        # (kind, coq term, info)
         self.seen_terms = set()
+        self.pcases = []       # (coq term of Harness2.pcase, info): place = generated code
         self.prop_failures = []   # (key, what, replay)
         self.first_spec = None
 
@@ -524,8 +525,31 @@ class Runner:
                     if prog is None:
                         continue
                     finfo = dict(info, field=f, continuous=cont, python_machine_safe=safe)
+                    if not info.get("history"):
+                        self.placement_case(cq, sched, kerns, f, cont, cfg, prog, finfo)
                     self.add("machines_agree", "CF %s %s %s %s %s" % (b(cfg), b(cont), cfgs, prog, b(safe)), finfo)
                     self.add("well_placed", "CP %d %s %s %s" % (halo.needed_literals(stmts, kerns), b(cfg), b(cont), prog), finfo)
+
+    def placement_case(self, cq, sched, kerns, f, cont, cfg, prog, finfo):
+        """untransformed invoke: the loops touching field f as Place.ploop terms (model of create_halo_exchanges)"""
+        impl = self.impl
+        loops = []
+        for ki, k in enumerate(sched.walk(impl.Kern)):
+            args = [a for a in kerns[ki]["args"] if a["field"] == f]
+            if not args:
+                continue
+            loop = k.ancestor(impl.LFRicLoop)
+            nb = kerns[ki]["node_bound"]
+            if len(args) != 1 or loop is None or nb is None or nb[2] == "null" or kerns[ki]["intergrid"]:
+                return
+            if nb[0] not in ("ncells", "cell_halo", "ndofs", "nannexed") or (nb[0] == "cell_halo" and nb[1] != 1):
+                return
+            a = args[0]
+            loops.append("(Build_ploop %s %s %s %s %s %s %s)" % (
+                BND[nb[0]], ACC[a["acc"]], b(halo.meta_discontinuous(a["fs"])), b(cont), cq.extent(a["stencil"]),
+                b(impl.auw(k, loop)), b(halo.kernel_gh_write_continuous(kerns[ki]))))
+        self.pcases.append(("CPL %s %s %s %s" % (b(cfg), b(cont), core.coq_list(loops), prog), finfo))
+        self.ctx.hist("placement_cases_loops_per_field", len(loops))
 
     def marks_cases(self, cq, sched, kerns, kis, block, info):
         impl = self.impl
@@ -579,7 +603,7 @@ def run(ctx):
         "bounds) are evaluated on every generated argument"]
     ok, rep = ctx.prove()
     ctx.log("proof ok=%s discharged=%d/%d" % (ok, ctx.cov["discharged"], ctx.cov["obligations"]))
-    okh, outh = ctx.coq_make(["C22/Harness.vo"])
+    okh, outh = ctx.coq_make(["C22/Harness.vo", "C22/Harness2.vo"])
     if not okh:
         ok = False
         rep.setdefault("errors", []).append("coq/C22/Harness.v does not build: " + outh[-1500:])
@@ -589,6 +613,10 @@ def run(ctx):
     t0 = time.time()
     for name, spec, steps in TARGETED:
         rn.one(name, json.loads(json.dumps(spec)), steps)
+    for name, spec, steps in TARGETED:
+        if steps and (ctx.thorough or name in ("rc-chain", "req-several-depths-unknown", "inc-max-writer-then-readers",
+                                               "multikernel", "annexed-on-inc-and-builtins")):
+            rn.one(name + "-untransformed", json.loads(json.dumps(spec)), [])
     ctx.log("targeted cases done: %.0fs" % (time.time() - t0))
     t0 = time.time()
     rng = ctx.rng("gen")
@@ -619,6 +647,23 @@ def run(ctx):
     ctx.cov["disagreements_checked"] = sum(len(v) for v in bykind.values())
     ctx.notes["well_placed_false"] = len(notwp)
     ctx.log("model/impl disagreements: %s ; well_placed false: %d" % ({k: len(v) for k, v in bykind.items()}, len(notwp)))
+    # ---- placement model (Place.place) = generated code, untransformed invokes
+    seenp, pc = set(), []
+    for t, i in rn.pcases:
+        if t not in seenp:
+            seenp.add(t)
+            pc.append((t, i))
+    pfail = ctx.coq_eval_failing("From PV Require Import C22.Model C22.Access C22.Harness C22.Place C22.Harness2.\nOpen Scope N_scope.",
+                                 "pcase", "pcheck", [t for t, _ in pc], shard=max(60, (len(pc) + 3) // 4)) if pc else []
+    ctx.notes["placement_cases"] = len(pc)
+    ctx.log("placement model cases: %d, disagreements: %d" % (len(pc), len(pfail)))
+    if pfail:
+        bykind["placement"] = []
+        ctx.cov["disagreements_checked"] += len(pfail)
+        ctx.violation({"property": "C22", "broken": "correspondence Place.place (model of create_halo_exchanges, untransformed "
+                       "invokes) = generated code: x%d" % len(pfail), "first_differing_case": pc[pfail[0]][1],
+                       "coq_term": pc[pfail[0]][0]}, no_input=True)
+        bykind.pop("placement")
     # ---- verdict
     reported = set()
     for key, code, replay in rn.prop_failures:
